@@ -1,21 +1,25 @@
 #!/usr/bin/env python3
-"""Summarises a sequential run of the thorough tier (the log written by running
-`check.py <id> --tier thorough` for every property) as a markdown table."""
+"""Summarises the logs of one run of the thorough tier (one file per property, the output of
+`check.py <id> --tier thorough`) as a markdown table.  usage: thorough_table.py [dir [prefix]]"""
+import glob
+import os
 import re
 import sys
 
 
-def main(path):
-    txt = open(path).read()
-    rows = []
-    for m in re.finditer(r'^(C\d\d) rc=(\d+)\n(?:.*\n)*?(?:C\d\d thorough: obligations=(\d+) discharged=(\d+) not_discharged=(\d+) paths=(\d+) cpu=(\d+)s wall=(\d+)s)',
-                         txt, re.M):
-        rows.append(m.groups())
-    print('| property | exit | obligations | discharged | not discharged | paths | cpu s | wall s |')
+def main(d='/tmp', prefix='t_'):
+    print('| property | violations | obligations | discharged | not discharged | paths | cpu s | wall s |')
     print('|---|---|---|---|---|---|---|---|')
-    for r in rows:
-        print('| ' + ' | '.join(r) + ' |')
+    for f in sorted(glob.glob(os.path.join(d, prefix + 'C??.log'))):
+        txt = open(f).read()
+        m = re.search(r'(C\d\d) thorough: obligations=(\d+) discharged=(\d+) not_discharged=(\d+) paths=(\d+) cpu=(\d+)s wall=(\d+)s', txt)
+        if not m:
+            print(f'| {os.path.basename(f)[len(prefix):-4]} | (no summary: still running, or stopped by the time cap) | | | | | | |')
+            continue
+        viol = len(re.findall(r'^VIOLATION ', txt, re.M))
+        g = m.groups()
+        print('| ' + ' | '.join([g[0], str(viol)] + list(g[1:])) + ' |')
 
 
 if __name__ == '__main__':
-    main(sys.argv[1] if len(sys.argv) > 1 else '/tmp/run_thorough_all.log')
+    main(*sys.argv[1:3])
